@@ -238,3 +238,66 @@ def replay(ctx, path):
         vf.report(ctx, obj["sig"], "replayed: " + obj.get("text", ""), {k: obj[k] for k in ("layer", "backend", "reference", "schedule")})
     else:
         print("replay: trace accepted (no divergence)")
+
+
+def run_plan(ctx, plan, rule, assumptions=(), reference=False, level="model_checking"):
+    """Generic runner of a store-level property: plan = {mc: [...], gen: [...], drv: [...]}.
+      mc : (name, cfg, props, kwargs)            design-level model checking of QueueMC
+      gen: (name, cfg, kwargs, sqlite_sample)    TLC-generated schedules executed on the real stores + TV
+      drv: (tag, profile, n, ops, kwargs)        seeded driver schedules executed on the real stores + TV
+    """
+    import time
+    t = time.time()
+
+    def lap(what):
+        nonlocal t
+        now = time.time()
+        print("  [%6.1fs] %s" % (now - t, what), flush=True)
+        ctx.notes.append("%s: %.1fs" % (what, now - t))
+        t = now
+    vf.build_hkv()
+    lap("build harness")
+    for (name, cfg, props, kw) in plan.get("mc", []):
+        run_mc(ctx, name, cfg, props=props, **kw)
+        lap("MC " + name)
+    for (name, cfg, kw, sample) in plan.get("gen", []):
+        kw = dict(kw)
+        simulate = kw.pop("simulate", None)
+        depth = kw.pop("depth", 0)
+        scheds, edges, r = gen_schedules(ctx, name, cfg, depth=depth, simulate=simulate, **kw)
+        lap("GEN %s (%d edges, %d schedules)" % (name, edges, len(scheds)))
+        if not scheds:
+            raise vf.Infra("generator %s produced no schedules" % name)
+        sf = os.path.join(ctx.scratch, "gen-%s.ndjson" % name)
+        write_schedules(sf, scheds, cfg, "gen-" + name)
+        ctx.count("gen_edges", edges)
+        ctx.count("gen_schedules", len(scheds))
+        ctx.sample({"kind": "TLC-generated schedule (%s)" % name, "cfg": sched_cfg(cfg), "ops": scheds[len(scheds) // 2]})
+        res, info = execute_and_validate(ctx, sf, "gen-" + name, sqlite_sample=sample, reference=reference)
+        lap("execute+TV gen-%s (%d traces, %d events)" % (name, info["traces"], info["events"]))
+        triage(ctx, res, sf, reference=reference)
+    for i, (tag, profile, n, ops, kw) in enumerate(plan.get("drv", [])):
+        res, info, sched = drive_and_validate(ctx, tag, profile, n, ops, ctx.seed * 1000 + i, reference=reference, **kw)
+        lap("drive+TV %s (%d traces, %d events)" % (tag, info["traces"], info["events"]))
+        triage(ctx, res, sched, reference=reference)
+        with open(sched) as f:
+            s = json.loads(f.readline())
+            s["ops"] = s["ops"][:10]
+            ctx.sample({"kind": "driver schedule %s (first 10 ops)" % tag, **s})
+    ctx.assumptions += ["memory and SQLite backends only (no PostgreSQL server in the sandbox)",
+                        "payloads / header maps are compared as digests",
+                        "a retention prune that precedes an operation is a separate sanctioned step (a refused call may still prune)"]
+    ctx.assumptions += list(assumptions)
+    if ctx.cov["traces_validated_against_impl"] == 0:
+        raise vf.Infra("vacuous run: no trace validated")
+    vf.write_evidence(ctx, level, rule, exhaustive=False)
+
+
+def liveness(ctx):
+    """C05 liveness on the contract: QueueLive under fairness, no state constraint."""
+    for name, cfg in (("live_mem", spec_cfg()), ("live_sql", spec_cfg(backend="sqlite", sweepGran=10, pressure=False, delivGuard=False))):
+        consts = {"Ids": {"m1", "m2"}, "Cfg": cfg}
+        plain = {"MaxEp": 2, "TTL": 10, "Ext": 10, "Delay": 5, "Step": 5, "Horizon": 90}
+        r = vf.mc_run(ctx, name, "QueueLive", consts, plain, invariants=["HorizonNotBinding"],
+                      properties=["EventuallyOffered", "EventuallySettled"], timeout=600, workers=4)
+        vf.mc_expect_ok(ctx, r, "QueueLive/" + name)
